@@ -278,16 +278,19 @@ func c20One(c *ev.Ctx, cs ev.Case) {
 		m = mm
 		same("TargetPSNR with TargetSize set", a, &b, map[string]string{"kind": "psnr"})
 	case "psnrtarget":
-		// TargetPSNR "adjusts quality across multiple passes to converge toward this PSNR level": on busy content two
-		// targets 14 dB apart, both inside what quality 0..100 can reach, cannot lead to the same file.
+		// TargetPSNR "adjusts quality across multiple passes to converge toward this PSNR level": one target far below
+		// and one far above what the first pass achieves on busy content (which lies between 15 and 60 dB at any
+		// quality) send the search in opposite directions, so the two files cannot be the same. (Two targets that are
+		// both out of reach on the same side legitimately end at the same bound - an earlier version of this oracle
+		// compared 28 dB with 42 dB and raised a false alarm on a noise picture whose best PSNR is below 28 dB.)
 		mm := img.Gen(r, pickS(r, "noise", "photo", "tiles"), "opaque", 64+r.Intn(64), 64+r.Intn(64))
 		a := webp.DefaultOptions()
 		a.Method = r.Intn(7)
 		a.Pass = pickI(r, 4, 6, 10)
 		a.Quality = pickF(r, 30, 50, 75, 90)
-		a.TargetPSNR = 28
+		a.TargetPSNR = 15
 		b := *a
-		b.TargetPSNR = 42
+		b.TargetPSNR = 60
 		ba, ea := encode(mm, a)
 		bb, eb := encode(mm, &b)
 		c.Eval(1)
@@ -295,7 +298,7 @@ func c20One(c *ev.Ctx, cs ev.Case) {
 		if ea != nil || eb != nil {
 			c.Violate(cs, "legal-rejected", map[string]string{"kind": "psnrtarget"}, fmt.Sprintf("%v / %v", ea, eb), nil)
 		} else if bytes.Equal(ba, bb) {
-			c.Violate(cs, "target-psnr-without-effect", map[string]string{"kind": "psnrtarget"}, fmt.Sprintf("TargetPSNR 28 and 42 give the same %d bytes [%s]", len(ba), optString(a)), map[string]string{"a": optString(a), "b": optString(&b)})
+			c.Violate(cs, "target-psnr-without-effect", map[string]string{"kind": "psnrtarget"}, fmt.Sprintf("TargetPSNR 15 and 60 give the same %d bytes [%s]", len(ba), optString(a)), map[string]string{"a": optString(a), "b": optString(&b)})
 		}
 	case "pinned":
 		// QMin == QMax (both documented as literal quality values in 0..100, only QMax < 0 is a sentinel) leaves the
